@@ -529,7 +529,16 @@ fn cmp_jac<T: Sc>(
         }
     };
     // Jacobian columns are differences of terms of magnitude |W.D_k|.|C|
-    let j_scale = c.dw_scale * c.cmax_last;
+    // and the coefficients themselves are only known to (tolerance x ||Yw|| / ||W.Phi||): when
+    // the data are nearly orthogonal to the basis, C is small by cancellation and its rounding
+    // noise, not its size, sets the scale of the Jacobian's uncertainty
+    let c_noise_scale = if c.phiw_scale > 0.0 { c.yw_scale / c.phiw_scale } else { 0.0 };
+    let j_scale = c.dw_scale * c.cmax_last.max(c_noise_scale);
+    if crate::model::TRACE.load(std::sync::atomic::Ordering::Relaxed) {
+        eprintln!("cmp_jac {site}: j_scale={:e} dw={:e} cmax={:e}", j_scale, c.dw_scale, c.cmax_last);
+        eprintln!("   A jac {:?}", a_cmp.iter().map(|v| v.f()).collect::<Vec<_>>());
+        eprintln!("   B jac {:?}", bt.iter().map(|v| v.f()).collect::<Vec<_>>());
+    }
     if let Some(e) = close_vec(&a_cmp, &bt, rel, j_scale) {
         let cl = if deleted.is_some() { "ZERO_WEIGHT_INFLUENCE" } else { class };
         let (cl, si, de) = c.classify::<T>(cl, &format!("{site}/jac"), format!("Jacobians of the twins differ: {e}"));
